@@ -94,6 +94,7 @@ theorem judge_target_snd (recs : List Rec) (op : Op) (files : List FName) (d : D
   | backup => rfl
   | «export» => rfl
   | dump => rfl
+  | bigcase => rfl
 
 theorem judge_restore_single {recs : List Rec} {id : String} {r : Rec} (h : findRec recs id = some r)
     (files : List FName) (d : Dump) :
@@ -181,6 +182,10 @@ theorem judge_step (st : State) (recs : List Rec) (hinv : st.src.Inv) (hl : Link
     simp only [step]
     split <;> exact ⟨fun _ h => known_of_mem_nil h, hl⟩
   | dump => exact ⟨fun _ h => known_of_mem_nil h, hl⟩
+  | bigcase n imp =>
+    simp only [step]; split
+    · exact ⟨fun _ h => known_of_mem_nil h, hl⟩
+    · exact ⟨fun sig h => by simp [judge] at h, hl⟩
   | backup id since =>
     simp only [step, Shard.backup, State.put] at hso ⊢
     simp only [judge]
